@@ -238,6 +238,11 @@ func runCheck(prop, tier, repo, verif string, verbose, noReplay bool, evOut stri
 		for e := range vc.usedExterns {
 			assumed[e] = true
 		}
+		for e := range vc.usedSpecs {
+			if sp := P.spec.Funcs[e]; sp != nil && sp.Trusted {
+				assumed[e] = true
+			}
+		}
 		for _, n := range vc.notes {
 			notes = append(notes, vc.name+": "+n)
 		}
@@ -448,7 +453,10 @@ func runReplay(repo, verif, fn string, inputs map[string]any, scratch string) (b
 	in := map[string]any{"function": fn, "inputs": inputs}
 	inFile := filepath.Join(scratch, "replay_in_"+mangle(fn)+".json")
 	writeJSON(inFile, in)
-	ov := map[string]any{"Replace": map[string]string{filepath.Join(pkgDir, "zz_govc_replay_test.go"): src}}
+	ov := map[string]any{"Replace": map[string]string{
+		filepath.Join(pkgDir, "zz_govc_replay_test.go"):      src,
+		filepath.Join(pkgDir, "zz_govc_replay_util_test.go"): filepath.Join(verif, "replay", "log_replay_util_test.go"),
+	}}
 	ovFile := filepath.Join(scratch, "overlay_"+mangle(fn)+".json")
 	writeJSON(ovFile, ov)
 	cmd := exec.Command("go", "test", "-overlay", ovFile, "-vet=off", "-count=1", "-timeout", "60s", "-v", "-run", "^TestGovcReplay$", ".")
